@@ -1,12 +1,19 @@
 import ObiVerif.Model.WriteErr
 import ObiVerif.Lemmas.Reseq
+import ObiVerif.Lemmas.WriteErr
 import ObiVerif.Props.C04
 /-!
 # C18 — output write failures are reported, never followed by a successful exit (property theorems)
 
 For every sink capacity `limit` (a write fault at every byte offset), every `Close` behaviour, every
-buffer size, every arrival order of the chunks and every chunk content: if the writer's outcome is
-`ok`, the sink holds exactly the bytes of the complete result.
+buffer size (0 included: no theorem below needs `size > 0`), every arrival order of the chunks and every
+chunk content (empty chunks included):
+
+* the sink ends with exactly the first `limit` bytes of the complete result (`raw_exact`, `json_exact`);
+* the outcome is `ok` **iff** the complete result fits and `Close` succeeds; so an `ok` exit implies the
+  sink holds every byte (`*_ok_all_bytes`), there is no false alarm (`*_fits_ok`), and the outcome is
+  `fatal` iff `limit < length ∨ closeFails` (`*_fatal_iff`);
+* whatever the outcome, what the sink holds is a prefix of the complete result (`*_prefix_safe`).
 -/
 namespace ObiVerif.Props.C18
 open ObiVerif.Reseq ObiVerif.WriteErr
@@ -18,5 +25,273 @@ theorem sink_write_ok (s : Sink) (p : Bytes) (h : (s.write p).2.2 = false) :
   have : ¬ (min p.length (s.limit - s.got.length) < p.length) := by simpa using h
   have hm : min p.length (s.limit - s.got.length) = p.length := by omega
   rw [hm, List.take_length]
+
+/-- the complete FASTA / FASTQ / CSV result: chunk 0, chunk 1, …, chunk n-1 -/
+def rawExpected (v : Nat → Bytes) (n : Nat) : Bytes := ((List.range n).map v).flatten
+
+/-- the complete JSON result: `[\n`, the non-empty chunks in order joined by `,\n`, `\n]\n` -/
+def jsonExpected (v : Nat → Bytes) (n : Nat) : Bytes :=
+  openJson ++ ObiVerif.Props.C04.joinNE sepJson ((List.range n).map v) ++ closeJson
+
+/-- the failing-sink model agrees with the plain writer model of C04 on what the complete result is -/
+theorem rawExpected_eq_C04 (v : Nat → Bytes) (n : Nat) (ks : List Nat) (hp : ks.Perm (List.range n)) :
+    rawExpected v n = ObiVerif.Writer.writeRaw (ks.map fun k => (k, v k)) :=
+  (ObiVerif.Props.C04.raw_writer_perm v n ks hp).symm
+
+theorem jsonExpected_eq_C04 (v : Nat → Bytes) (n : Nat) (ks : List Nat) (hp : ks.Perm (List.range n)) :
+    jsonExpected v n = ObiVerif.Writer.writeJson (ks.map fun k => (k, v k)) :=
+  (ObiVerif.Props.C04.json_writer_perm v n ks hp).symm
+
+/-! ## complete characterisation -/
+
+/-- FASTA / FASTQ / CSV over a sink failing after `limit` bytes: the sink ends with the first `limit`
+bytes of the complete result; the exit is fatal iff the result does not fit or `Close` fails. -/
+theorem raw_exact (size limit : Nat) (cf : Bool) (v : Nat → Bytes) (n : Nat) (ks : List Nat)
+    (hp : ks.Perm (List.range n)) :
+    writeRaw size limit cf (ks.map fun k => (k, v k)) =
+      (if limit < (rawExpected v n).length || cf then .fatal else .ok, (rawExpected v n).take limit) := by
+  unfold writeRaw
+  rw [(run_perm emitRaw _ v n ks hp).1]
+  have h := foldl_emitRaw_inv ((List.range n).map v) _ _ (BWInv.init size limit cf)
+  rw [closeW_eq h]
+  rfl
+
+/-- JSON over a sink failing after `limit` bytes -/
+theorem json_exact (size limit : Nat) (cf : Bool) (v : Nat → Bytes) (n : Nat) (ks : List Nat)
+    (hp : ks.Perm (List.range n)) :
+    writeJson size limit cf (ks.map fun k => (k, v k)) =
+      (if limit < (jsonExpected v n).length || cf then .fatal else .ok, (jsonExpected v n).take limit) := by
+  unfold writeJson
+  simp only
+  rw [(run_perm emitJson _ v n ks hp).1]
+  have h0 : BWInv limit cf ((⟨size, [], false, ⟨limit, [], cf⟩⟩ : BW).write openJson)
+      ObiVerif.Writer.openJson := write_inv (BWInv.init size limit cf) openJson
+  have hsim := (foldl_emitJson_sim ((List.range n).map v)
+    ⟨(⟨size, [], false, ⟨limit, [], cf⟩⟩ : BW).write openJson, false⟩
+    ⟨ObiVerif.Writer.openJson, false⟩ rfl h0).2
+  refine (closeW_eq (write_inv hsim closeJson)).trans ?_
+  rw [(ObiVerif.Props.C04.foldl_emitJson _ _).1]
+  simp only [Bool.false_eq_true, if_false]
+  rfl
+
+/-! ## 1. an `ok` exit implies the sink holds every byte, and `Close` did not fail -/
+
+theorem exact_ok {limit : Nat} {cf : Bool} {exp got : Bytes}
+    (h : ((if limit < exp.length || cf then Outcome.fatal else Outcome.ok), exp.take limit) = (Outcome.ok, got)) :
+    got = exp ∧ cf = false := by
+  by_cases hc : (limit < exp.length || cf) = true
+  · rw [if_pos hc] at h; cases h
+  · rw [if_neg hc] at h
+    simp only [Bool.or_eq_true, decide_eq_true_eq, not_or, Nat.not_lt, Bool.not_eq_true] at hc
+    have h2 : exp.take limit = got := (Prod.mk.inj h).2
+    rw [List.take_of_length_le hc.1] at h2
+    exact ⟨h2.symm, hc.2⟩
+
+theorem raw_ok_all_bytes (size limit : Nat) (cf : Bool) (v : Nat → Bytes) (n : Nat) (ks : List Nat)
+    (hp : ks.Perm (List.range n)) (got : Bytes)
+    (h : writeRaw size limit cf (ks.map fun k => (k, v k)) = (.ok, got)) :
+    got = ((List.range n).map v).flatten ∧ cf = false := by
+  rw [raw_exact size limit cf v n ks hp] at h
+  exact exact_ok h
+
+theorem json_ok_all_bytes (size limit : Nat) (cf : Bool) (v : Nat → Bytes) (n : Nat) (ks : List Nat)
+    (hp : ks.Perm (List.range n)) (got : Bytes)
+    (h : writeJson size limit cf (ks.map fun k => (k, v k)) = (.ok, got)) :
+    got = openJson ++ ObiVerif.Props.C04.joinNE sepJson ((List.range n).map v) ++ closeJson ∧ cf = false := by
+  rw [json_exact size limit cf v n ks hp] at h
+  exact exact_ok h
+
+/-! ## 3. no false alarm: when everything fits and `Close` succeeds, the exit is `ok` with every byte -/
+
+theorem exact_fits {limit : Nat} {exp : Bytes} (hl : exp.length ≤ limit) :
+    ((if limit < exp.length || false then Outcome.fatal else Outcome.ok), exp.take limit) = (Outcome.ok, exp) := by
+  have : ¬ (limit < exp.length) := by omega
+  simp [this, List.take_of_length_le hl]
+
+theorem raw_fits_ok (size limit : Nat) (cf : Bool) (v : Nat → Bytes) (n : Nat) (ks : List Nat)
+    (hp : ks.Perm (List.range n)) (hl : (((List.range n).map v).flatten).length ≤ limit) (hcf : cf = false) :
+    writeRaw size limit cf (ks.map fun k => (k, v k)) = (.ok, ((List.range n).map v).flatten) := by
+  subst hcf
+  rw [raw_exact size limit false v n ks hp]
+  exact exact_fits hl
+
+theorem json_fits_ok (size limit : Nat) (cf : Bool) (v : Nat → Bytes) (n : Nat) (ks : List Nat)
+    (hp : ks.Perm (List.range n))
+    (hl : (openJson ++ ObiVerif.Props.C04.joinNE sepJson ((List.range n).map v) ++ closeJson).length ≤ limit)
+    (hcf : cf = false) :
+    writeJson size limit cf (ks.map fun k => (k, v k)) =
+      (.ok, openJson ++ ObiVerif.Props.C04.joinNE sepJson ((List.range n).map v) ++ closeJson) := by
+  subst hcf
+  rw [json_exact size limit false v n ks hp]
+  exact exact_fits hl
+
+/-! ## 4. the exit is fatal exactly when the result does not fit or `Close` fails -/
+
+theorem exact_fatal_iff {limit : Nat} {cf : Bool} {exp : Bytes} :
+    (if limit < exp.length || cf then Outcome.fatal else Outcome.ok) = Outcome.fatal ↔
+      (limit < exp.length ∨ cf = true) := by
+  by_cases hc : (limit < exp.length || cf) = true
+  · rw [if_pos hc]
+    simpa using hc
+  · rw [if_neg hc]
+    simp only [Bool.or_eq_true, decide_eq_true_eq] at hc
+    constructor
+    · intro h; cases h
+    · intro h; exact absurd h hc
+
+theorem raw_fatal_iff (size limit : Nat) (cf : Bool) (v : Nat → Bytes) (n : Nat) (ks : List Nat)
+    (hp : ks.Perm (List.range n)) :
+    (writeRaw size limit cf (ks.map fun k => (k, v k))).1 = .fatal ↔
+      (limit < (((List.range n).map v).flatten).length ∨ cf = true) := by
+  rw [raw_exact size limit cf v n ks hp]
+  exact exact_fatal_iff
+
+theorem json_fatal_iff (size limit : Nat) (cf : Bool) (v : Nat → Bytes) (n : Nat) (ks : List Nat)
+    (hp : ks.Perm (List.range n)) :
+    (writeJson size limit cf (ks.map fun k => (k, v k))).1 = .fatal ↔
+      (limit < (openJson ++ ObiVerif.Props.C04.joinNE sepJson ((List.range n).map v) ++ closeJson).length
+        ∨ cf = true) := by
+  rw [json_exact size limit cf v n ks hp]
+  exact exact_fatal_iff
+
+/-- the outcome is always one of the two: `ok` iff the result fits and `Close` succeeds -/
+theorem raw_ok_iff (size limit : Nat) (cf : Bool) (v : Nat → Bytes) (n : Nat) (ks : List Nat)
+    (hp : ks.Perm (List.range n)) :
+    (writeRaw size limit cf (ks.map fun k => (k, v k))).1 = .ok ↔
+      ((((List.range n).map v).flatten).length ≤ limit ∧ cf = false) := by
+  constructor
+  · intro h
+    have h' : ¬ (limit < (((List.range n).map v).flatten).length ∨ cf = true) := by
+      rw [← raw_fatal_iff size limit cf v n ks hp, h]; intro hh; cases hh
+    cases cf <;> simp at h' ⊢ <;> omega
+  · rintro ⟨hl, hcf⟩
+    rw [raw_fits_ok size limit cf v n ks hp hl hcf]
+
+theorem json_ok_iff (size limit : Nat) (cf : Bool) (v : Nat → Bytes) (n : Nat) (ks : List Nat)
+    (hp : ks.Perm (List.range n)) :
+    (writeJson size limit cf (ks.map fun k => (k, v k))).1 = .ok ↔
+      ((openJson ++ ObiVerif.Props.C04.joinNE sepJson ((List.range n).map v) ++ closeJson).length ≤ limit
+        ∧ cf = false) := by
+  constructor
+  · intro h
+    have h' := mt (json_fatal_iff size limit cf v n ks hp).mpr (by rw [h]; intro hh; cases hh)
+    cases cf <;> simp at h' ⊢ <;> omega
+  · rintro ⟨hl, hcf⟩
+    rw [json_fits_ok size limit cf v n ks hp hl hcf]
+
+/-! ## 5. prefix safety: whatever the outcome, the sink holds a prefix of the complete result -/
+
+theorem raw_prefix_safe (size limit : Nat) (cf : Bool) (v : Nat → Bytes) (n : Nat) (ks : List Nat)
+    (hp : ks.Perm (List.range n)) :
+    (writeRaw size limit cf (ks.map fun k => (k, v k))).2 <+: ((List.range n).map v).flatten ∧
+    (writeRaw size limit cf (ks.map fun k => (k, v k))).2.length ≤ limit := by
+  rw [raw_exact size limit cf v n ks hp]
+  exact ⟨List.take_prefix _ _, by simp only [List.length_take]; omega⟩
+
+theorem json_prefix_safe (size limit : Nat) (cf : Bool) (v : Nat → Bytes) (n : Nat) (ks : List Nat)
+    (hp : ks.Perm (List.range n)) :
+    (writeJson size limit cf (ks.map fun k => (k, v k))).2 <+:
+      openJson ++ ObiVerif.Props.C04.joinNE sepJson ((List.range n).map v) ++ closeJson ∧
+    (writeJson size limit cf (ks.map fun k => (k, v k))).2.length ≤ limit := by
+  rw [json_exact size limit cf v n ks hp]
+  exact ⟨List.take_prefix _ _, by simp only [List.length_take]; omega⟩
+
+/-- a fatal exit caused by a write error (not by `Close`) leaves the sink full: exactly `limit` bytes -/
+theorem raw_short_write_full (size limit : Nat) (cf : Bool) (v : Nat → Bytes) (n : Nat) (ks : List Nat)
+    (hp : ks.Perm (List.range n)) (hl : limit < (((List.range n).map v).flatten).length) :
+    (writeRaw size limit cf (ks.map fun k => (k, v k))).2.length = limit := by
+  rw [raw_exact size limit cf v n ks hp]
+  simp only [List.length_take]
+  unfold rawExpected; omega
+
+theorem json_short_write_full (size limit : Nat) (cf : Bool) (v : Nat → Bytes) (n : Nat) (ks : List Nat)
+    (hp : ks.Perm (List.range n))
+    (hl : limit < (openJson ++ ObiVerif.Props.C04.joinNE sepJson ((List.range n).map v) ++ closeJson).length) :
+    (writeJson size limit cf (ks.map fun k => (k, v k))).2.length = limit := by
+  rw [json_exact size limit cf v n ks hp]
+  simp only [List.length_take]
+  unfold jsonExpected; omega
+
+/-! ## non-vacuity: arrival order 1,0,2, an empty chunk in the middle, buffer of 4 bytes -/
+
+/-- chunk texts of the examples: `ABC`, empty, `CBC` -/
+def exV (k : Nat) : Bytes := if k = 1 then [] else [65 + k.toUInt8, 66, 67]
+
+/-- raw, limit 4 of 6 bytes: fatal, the sink holds the first 4 bytes -/
+example : writeRaw 4 4 false ([1, 0, 2].map fun k => (k, exV k)) = (.fatal, [65, 66, 67, 67]) := by
+  rw [raw_exact 4 4 false exV 3 [1, 0, 2] (by decide)]
+  decide
+
+/-- JSON, limit 7 of 13 bytes (the fault falls inside the separator): fatal, first 7 bytes -/
+example : writeJson 4 7 false ([1, 0, 2].map fun k => (k, exV k))
+    = (.fatal, [91, 10, 65, 66, 67, 44, 10]) := by
+  rw [json_exact 4 7 false exV 3 [1, 0, 2] (by decide)]
+  decide
+
+/-- `raw_fits_ok` / `raw_ok_all_bytes`: limit 6 = exactly the size of the result -/
+example : writeRaw 4 6 false ([1, 0, 2].map fun k => (k, exV k)) = (.ok, [65, 66, 67, 67, 66, 67]) := by
+  rw [raw_fits_ok 4 6 false exV 3 [1, 0, 2] (by decide) (by decide) rfl]
+  decide
+
+example : ∃ got, writeRaw 4 6 false ([1, 0, 2].map fun k => (k, exV k)) = (.ok, got) ∧
+    got = [65, 66, 67, 67, 66, 67] ∧ false = false := by
+  have h := raw_fits_ok 4 6 false exV 3 [1, 0, 2] (by decide) (by decide) rfl
+  refine ⟨_, h, ?_⟩
+  have := raw_ok_all_bytes 4 6 false exV 3 [1, 0, 2] (by decide) _ h
+  exact ⟨by decide, this.2⟩
+
+/-- `json_fits_ok` / `json_ok_all_bytes`: limit 13 = exactly the size of the document -/
+example : writeJson 4 13 false ([1, 0, 2].map fun k => (k, exV k))
+    = (.ok, [91, 10, 65, 66, 67, 44, 10, 67, 66, 67, 10, 93, 10]) := by
+  rw [json_fits_ok 4 13 false exV 3 [1, 0, 2] (by decide) (by decide) rfl]
+  decide
+
+example : ∃ got, writeJson 4 13 false ([1, 0, 2].map fun k => (k, exV k)) = (.ok, got) ∧
+    got = [91, 10, 65, 66, 67, 44, 10, 67, 66, 67, 10, 93, 10] ∧ false = false := by
+  have h := json_fits_ok 4 13 false exV 3 [1, 0, 2] (by decide) (by decide) rfl
+  refine ⟨_, h, ?_⟩
+  have := json_ok_all_bytes 4 13 false exV 3 [1, 0, 2] (by decide) _ h
+  exact ⟨by decide, this.2⟩
+
+/-- `raw_fatal_iff`: one byte short is fatal; a failing `Close` alone is fatal -/
+example : (writeRaw 4 5 false ([1, 0, 2].map fun k => (k, exV k))).1 = .fatal :=
+  (raw_fatal_iff 4 5 false exV 3 [1, 0, 2] (by decide)).mpr (Or.inl (by decide))
+
+example : (writeRaw 4 100 true ([1, 0, 2].map fun k => (k, exV k))).1 = .fatal :=
+  (raw_fatal_iff 4 100 true exV 3 [1, 0, 2] (by decide)).mpr (Or.inr rfl)
+
+example : (writeJson 4 12 false ([1, 0, 2].map fun k => (k, exV k))).1 = .fatal :=
+  (json_fatal_iff 4 12 false exV 3 [1, 0, 2] (by decide)).mpr (Or.inl (by decide))
+
+example : (writeJson 4 100 true ([1, 0, 2].map fun k => (k, exV k))).1 = .fatal :=
+  (json_fatal_iff 4 100 true exV 3 [1, 0, 2] (by decide)).mpr (Or.inr rfl)
+
+/-- `raw_ok_iff` / `json_ok_iff` -/
+example : (writeRaw 4 6 false ([1, 0, 2].map fun k => (k, exV k))).1 = .ok :=
+  (raw_ok_iff 4 6 false exV 3 [1, 0, 2] (by decide)).mpr ⟨by decide, rfl⟩
+
+example : (writeJson 4 13 false ([1, 0, 2].map fun k => (k, exV k))).1 = .ok :=
+  (json_ok_iff 4 13 false exV 3 [1, 0, 2] (by decide)).mpr ⟨by decide, rfl⟩
+
+/-- prefix safety on the same inputs, limit in the middle -/
+example : (writeRaw 4 3 true ([1, 0, 2].map fun k => (k, exV k))).2 <+: [65, 66, 67, 67, 66, 67] ∧
+    (writeRaw 4 3 true ([1, 0, 2].map fun k => (k, exV k))).2.length ≤ 3 := by
+  have h := raw_prefix_safe 4 3 true exV 3 [1, 0, 2] (by decide)
+  have e : ((List.range 3).map exV).flatten = [65, 66, 67, 67, 66, 67] := by decide
+  rwa [e] at h
+
+example : (writeJson 4 9 false ([1, 0, 2].map fun k => (k, exV k))).2 <+:
+      [91, 10, 65, 66, 67, 44, 10, 67, 66, 67, 10, 93, 10] ∧
+    (writeJson 4 9 false ([1, 0, 2].map fun k => (k, exV k))).2.length ≤ 9 := by
+  have h := json_prefix_safe 4 9 false exV 3 [1, 0, 2] (by decide)
+  have e : openJson ++ ObiVerif.Props.C04.joinNE sepJson ((List.range 3).map exV) ++ closeJson
+      = [91, 10, 65, 66, 67, 44, 10, 67, 66, 67, 10, 93, 10] := by decide
+  rwa [e] at h
+
+example : (writeRaw 4 3 false ([1, 0, 2].map fun k => (k, exV k))).2.length = 3 :=
+  raw_short_write_full 4 3 false exV 3 [1, 0, 2] (by decide) (by decide)
+
+example : (writeJson 4 9 false ([1, 0, 2].map fun k => (k, exV k))).2.length = 9 :=
+  json_short_write_full 4 9 false exV 3 [1, 0, 2] (by decide) (by decide)
 
 end ObiVerif.Props.C18
